@@ -252,7 +252,15 @@ def run(ctx):
             err = None
         except Exception as e:  # noqa: BLE001
             c, err = None, implrun.errkind(e)
-        # the same program through ONE Parser object reused for the whole run must give the same circuit
+        # the same program through ONE Parser object reused for the whole run must give the same circuit; now and then
+        # the reused parser is first fed a program that is refused (by libqasm, or by OpenSquirrel after some statements)
+        if rng.random() < 0.15:
+            bad = rng.choice(["version 3.0\nqubit[4] q\nH q[3]\nCNOT q[1], q[1]\n", "version 3.0\nqubit[2] q\nX q[0]\nFoo q[1]\n",
+                              "version 3.0\nqubit[3] q\nbit[1] b\nY q[2]\nb[0] = measure q[1]\nCZ q[0], q[0]\n", "version 3.0\nqubit[2] q\nH q[5]\n"])
+            try:
+                reused.circuit_from_string(bad)
+            except Exception:  # noqa: BLE001
+                pass
         try:
             c_re = reused.circuit_from_string(text)
             same = err is None and (c_re.qubit_register_size, c_re.bit_register_size) == (c.qubit_register_size, c.bit_register_size) \
